@@ -191,6 +191,7 @@ type env struct {
 }
 
 var cur *env
+var debugDump bool
 
 func lpgPath() string {
 	if p := os.Getenv("VERIF_LPG"); p != "" {
@@ -500,6 +501,10 @@ func RunCase(in In) (out Out) {
 			out.Err = "setup: " + err.Error()
 			return
 		}
+		if err := e.exportFor(names, r); err != nil {
+			out.Err = "export: " + err.Error()
+			return
+		}
 		out.SetupResps = append(out.SetupResps, perform(ctx, e, ctrl, names, r))
 	}
 	// the tasks
@@ -645,6 +650,9 @@ func (e *env) ledgerState(real string) (LedgerState, error) {
 	for _, r := range tbl("accounts_volumes") {
 		st.Volumes[str(r["accounts_address"])+"/"+str(r["asset"])] = [2]string{str(r["input"]), str(r["output"])}
 	}
+	if debugDump {
+		fmt.Fprintln(os.Stderr, string(raw))
+	}
 	for _, r := range tbl("transactions") {
 		t := TxRow{ID: u64(r["id"]), Reference: str(r["reference"]), Reverted: r["reverted_at"] != nil, Postings: []JPosting{}}
 		var ps []struct {
@@ -710,6 +718,12 @@ func (e *env) ledgerState(real string) (LedgerState, error) {
 }
 
 func jsonText(v any) string {
+	// LeanPG's dump wraps json/jsonb values as {"json": …}
+	if m, ok := v.(map[string]any); ok && len(m) == 1 {
+		if inner, ok := m["json"]; ok {
+			v = inner
+		}
+	}
 	switch x := v.(type) {
 	case nil:
 		return "null"
